@@ -683,6 +683,7 @@ func c09MakeOps() (sig, desc []c09Op) {
 	dv("SetUPID(8 bytes)", c09D0NotMID, func(d scte35.SegmentationDescriptor) { d.SetUPID([]byte{1, 2, 3, 4, 5, 6, 7, 8}) }, func(g *ref.S35Seg) { g.UPID = []byte{1, 2, 3, 4, 5, 6, 7, 8} })
 	desc[len(desc)-1].doSt = func(st *c09State, s scte35.SCTE35) { c09D0(s).SetUPID(st.guarded([]byte{1, 2, 3, 4, 5, 6, 7, 8})) }
 	dv("SetUPID(empty)", c09D0NotMID, func(d scte35.SegmentationDescriptor) { d.SetUPID([]byte{}) }, func(g *ref.S35Seg) { g.UPID = nil })
+	dv("SetUPID(nil)", c09D0NotMID, func(d scte35.SegmentationDescriptor) { d.SetUPID(nil) }, func(g *ref.S35Seg) { g.UPID = nil })
 	dv("SetMID(ADI 'ab', user-defined '')", c09D0IsMID, func(d scte35.SegmentationDescriptor) {
 		a, b := scte35.CreateUPID(), scte35.CreateUPID()
 		a.SetUPIDType(scte35.SegUPIDADI)
